@@ -6,10 +6,11 @@ cd "$(dirname "$0")"
 export GOFLAGS=-mod=mod GOPROXY=off
 unset GOTOOLCHAIN GOSUMDB || true
 mkdir -p build out evidence
-cp /repo/go.sum harness/go.sum 2>/dev/null || true
+cp ${VERIF_REPO:-/repo}/go.sum harness/go.sum 2>/dev/null || true
+sed -i "s#=> .*#=> ${VERIF_REPO:-/repo}#" harness/go.mod
 (cd harness && go build -tags verif -o ../build/harness .)
 ./build/harness consts > build/Consts.v && { cmp -s build/Consts.v coq/Gen/Consts.v || cp build/Consts.v coq/Gen/Consts.v; }
-./build/harness kindtable /repo > build/KindTable.v && { cmp -s build/KindTable.v coq/Gen/KindTable.v || cp build/KindTable.v coq/Gen/KindTable.v; }
+./build/harness kindtable ${VERIF_REPO:-/repo} > build/KindTable.v && { cmp -s build/KindTable.v coq/Gen/KindTable.v || cp build/KindTable.v coq/Gen/KindTable.v; }
 (cd coq && rm -f Makefile Makefile.conf && ./build.sh)
 (cd ocaml && ./build.sh)
 echo setup ok
